@@ -4,8 +4,9 @@ open Codec
 open Sql
 open Api
 
-type st = { mutable db : Sql.db; mutable spec : Codec.tuple list; mutable names : Byte.byte list list; mutable nid : int }
-let state = { db = Sql.empty_db; spec = []; names = []; nid = 1 }
+type st = { mutable db : Sql.db; mutable spec : Codec.tuple list; mutable names : Byte.byte list list; mutable nid : int;
+            specs : (int, Codec.tuple list) Hashtbl.t; mutable last_rows : string list; mutable last_dump : string; mutable digest : bool }
+let state = { db = Sql.empty_db; spec = []; names = []; nid = 1; specs = Hashtbl.create 4; last_rows = []; last_dump = ""; digest = false }
 
 let p_action t = match unhx (next t) with
   | b when hx b = "h696e73657274" -> AInsert
@@ -28,6 +29,44 @@ let f_dump (d : Sql.db) =
   let ms = sorted_strings (List.map (fun ((n, s), str) ->
       if s = str then Printf.sprintf "M %d %s" (int_of_n n) (hx str) else Printf.sprintf "M? %s %s" (f_uid (n, s)) (hx str)) d.maps) in
   Printf.sprintf "D %d %s %d %s" (List.length rs) (String.concat " " rs) (List.length ms) (String.concat " " ms)
+let md5 (l : string list) = Digest.to_hex (Digest.string (String.concat "\n" l))
+let f_dump_digest (d : Sql.db) =
+  let rs = sorted_strings (List.map f_row d.rows) in
+  let ms = sorted_strings (List.map (fun ((n, s), str) ->
+      if s = str then Printf.sprintf "M %d %s" (int_of_n n) (hx str) else Printf.sprintf "M? %s %s" (f_uid (n, s)) (hx str)) d.maps) in
+  Printf.sprintf "X %d %s %d %s" (List.length rs) (md5 rs) (List.length ms) (md5 ms)
+let poison_ins = unhx "h5f5f6661696c5f696e73"   (* __fail_ins *)
+let poison_del = unhx "h5f5f6661696c5f64656c"   (* __fail_del *)
+let poison_map = unhx "h5f5f6661696c5f6d6170"   (* __fail_map *)
+let stmt_poisoned (st : Sql.stmt) : bool = match st with
+  | SInsert rows -> List.exists (fun (r : Sql.row) -> r.r_rel = poison_ins) rows
+  | SDelete (_, ts) -> List.exists (fun (t : Sql.ituple) -> t.i_rel = poison_del) ts
+  | SDeleteQ (_, q) -> q.iq_rel = Some poison_del
+  | SMapInsert ms -> List.exists (fun (_, str) -> str = poison_map) ms
+  | SFailBuild _ -> false
+(* the fault plan of the ATOM suite: statement k of the request's transaction fails iff it touches a poison row *)
+let plan_for (names) (nid) (db : Sql.db) (op : Api.op) : Sql.faults =
+  let of_stmts stmts = (fun k -> (try stmt_poisoned (List.nth stmts (int_of_nat k)) with _ -> false)) in
+  let tx ins del mk =
+    (match Mapping.coq_FromTuple names false nid (ins @ del) with
+     | ROk (its, mst) -> of_stmts (mst @ mk its)
+     | RErr _ -> Sql.no_faults) in
+  let rec take n l = if n = 0 then [] else (match l with [] -> [] | x :: r -> x :: take (n - 1) r) in
+  let rec drop n l = if n = 0 then l else (match l with [] -> [] | _ :: r -> drop (n - 1) r) in
+  match op with
+  | OpCreate tu -> tx [tu] [] (fun its -> Sql.write_stmts nid db.next its)
+  | OpPatch items ->
+    let ins = List.filter_map (function Some (AInsert, Some tu) -> Some tu | _ -> None) items in
+    let del = List.filter_map (function Some (ADelete, Some tu) -> Some tu | _ -> None) items in
+    tx ins del (fun its -> Sql.transact_stmts nid db.next (take (List.length ins) its) (drop (List.length ins) its))
+  | OpTransact items ->
+    let conv a = List.filter_map (fun (a', p) -> if a' = a then (match tuple_from_data_provider p with Ok tu -> Some tu | _ -> None) else None) items in
+    let ins = conv AInsert and del = conv ADelete in
+    tx ins del (fun its -> Sql.transact_stmts nid db.next (take (List.length ins) its) (drop (List.length ins) its))
+  | OpDeleteREST (v, _) -> (match query_from_url v with Ok q when q.q_rel = Some poison_del -> (fun _ -> true) | _ -> Sql.no_faults)
+  | OpDeleteGRPC (Some pq) when pq.pq_rel = Some poison_del -> (fun _ -> true)
+  | _ -> Sql.no_faults
+
 let f_list (ts : tuple list) (tokempty : bool) =
   let ss = sorted_strings (List.map C18.f_tuple ts) in
   Printf.sprintf "L %d %s %d" (List.length ss) (String.concat " " ss) (if tokempty then 1 else 0)
@@ -81,8 +120,21 @@ let run (input : string) (obs : string) : string * string =
     state.nid <- int_tok t;
     let rec go acc = if peek t = "." then List.rev acc else go (bytes_tok t :: acc) in
     state.names <- go [];
-    state.db <- Sql.empty_db; state.spec <- [];
+    state.db <- Sql.empty_db; state.spec <- []; Hashtbl.reset state.specs; state.last_rows <- []; state.last_dump <- "";
+    state.digest <- false;
     ("-", "na")
+  end else if opname = "mode" then begin
+    state.digest <- (next t = "digest"); ("-", "na")
+  end else if opname = "use" then begin
+    Hashtbl.replace state.specs state.nid state.spec;
+    state.nid <- int_tok t;
+    state.spec <- (try Hashtbl.find state.specs state.nid with Not_found -> []);
+    ("-", "na")
+  end else if opname = "ro" then begin
+    (* a read / syntax request: the model state is untouched by construction (theorems C17); oracle: implementation dump unchanged *)
+    let d = String.concat " " (words obs) in
+    let v = if state.last_dump = "" || d = state.last_dump then "pass" else "fail:read-request-changed-stored-state" in
+    (f_dump state.db, v)
   end else begin
     let nid = n_of_int state.nid in
     (* parse op; also compute what the spec needs *)
@@ -138,23 +190,43 @@ let run (input : string) (obs : string) : string * string =
         let tok = p_tok t in
         OpListGRPC (q, size, tok), (fun s -> s), false, (match q with Some pq -> Some (query_from_data_provider pq) | None -> None)
       | x -> failwith ("STORE: unknown op " ^ x) in
-    let (db', resp) = Api.step state.names nid Sql.no_faults state.db op in
+    let plan = if state.digest then plan_for state.names nid state.db op else Sql.no_faults in
+    let (db', resp) = Api.step state.names nid plan state.db op in
     state.db <- db';
     let code = int_of_nat resp.status in
     let is_list = (match op with OpListREST _ | OpListGRPC _ -> true | _ -> false) in
     let model_obs =
       if is_list && code = 200 then Printf.sprintf "%d %s %s" code (f_list resp.listed (resp.next_tok = TokEmpty)) (f_dump db')
+      else if state.digest then Printf.sprintf "%d %s" code (f_dump_digest db')
       else Printf.sprintf "%d %s" code (f_dump db') in
     (* ---- oracle on the implementation's observation ---- *)
     let verdict =
+      if state.digest then begin
+        (* atomicity oracle (C05): a request that was not answered 2xx leaves both tables exactly as they were *)
+        match words obs with
+        | codes :: "X" :: rest ->
+          let icode = int_of_string codes in
+          let d = String.concat " " rest in
+          let prev = state.last_dump in
+          state.last_dump <- d;
+          if icode = 0 then "fail:handler-panicked"
+          else if (icode < 200 || icode >= 300) && prev <> "" && prev <> d then "fail:failed-request-changed-stored-state"
+          else "pass"
+        | _ -> "fail:unparsable-observation"
+      end else
       try
         let io = parse_obs obs in
+        state.last_dump <- "D " ^ (let w = words io.raw_dump in String.concat " " (List.tl w));
         let ok2xx = io.code >= 200 && io.code < 300 in
         let spec' = if ok2xx then spec_eff state.spec else state.spec in
         state.spec <- spec';
         let impl_api = sorted_strings (List.filter_map (row_to_api state.nid) io.irows) in
         let spec_api = sorted_strings (List.map C18.f_tuple spec') in
+        let other l = sorted_strings (List.filter (fun r -> match words r with "R" :: net :: _ -> (try int_of_string net <> state.nid with _ -> true) | _ -> true) l) in
+        let frame_broken = other io.irows <> other state.last_rows in
+        state.last_rows <- io.irows;
         if io.code = 0 then "fail:handler-panicked"
+        else if frame_broken then "fail:operation-changed-rows-of-another-network"
         else if impl_api <> spec_api then
           "fail:store-differs-from-multiset-spec" ^ (if ok2xx then "" else "(rejected-request-had-effect)")
         else if must_reject && ok2xx then "fail:invalid-write-accepted"
